@@ -290,40 +290,31 @@ func runC07(c *Ctx) {
 // rejectEdgeOK: from block b every path returns a rejecting value (non-zero
 // const status, or non-nil error as last result).
 func rejectEdgeOK(p *Prog, b *ssa.BasicBlock, errStyle bool) bool {
-	seen := map[*ssa.BasicBlock]bool{}
-	var walk func(b *ssa.BasicBlock) bool
-	walk = func(b *ssa.BasicBlock) bool {
-		if seen[b] {
-			return true
-		}
-		seen[b] = true
+	return rejectEdgeFrom(p, nil, b, errStyle)
+}
+
+// rejectEdgeFrom is rejectEdgeOK for the edge from→b: the walk knows the value every boolean phi took on
+// the edges it came by (feasible.go), so a rejection that sets a flag and tests it after a join still counts.
+func rejectEdgeFrom(p *Prog, from, b *ssa.BasicBlock, errStyle bool) bool {
+	return allPathsFrom(from, b, func(b *ssa.BasicBlock) (bool, bool) {
 		for _, in := range b.Instrs {
 			if r, ok := in.(*ssa.Return); ok {
 				if errStyle {
 					last := retVal(r, len(r.Results)-1)
-					return !isNilConst(last)
+					return true, !isNilConst(last)
 				}
 				if call, ok := retVal(r, 0).(*ssa.Call); ok {
 					if f := staticCallee(call); f != nil && strings.HasPrefix(f.Name(), "nfsError") {
 						k, isC := constInt(argN(call, 1))
-						return isC && k != 0
+						return true, isC && k != 0
 					}
 				}
 				k, isC := constInt(retVal(r, 0))
-				return isC && k != 0
+				return true, isC && k != 0
 			}
 		}
-		if len(b.Succs) == 0 {
-			return false
-		}
-		for _, s := range b.Succs {
-			if !walk(s) {
-				return false
-			}
-		}
-		return true
-	}
-	return walk(b)
+		return false, false
+	})
 }
 
 type nameTest struct {
@@ -429,7 +420,7 @@ func runValidatorTable(c *Ctx) {
 				if neg {
 					rej = b.Succs[1]
 				}
-				if rejectEdgeOK(p, rej, errStyle) {
+				if rejectEdgeFrom(p, b, rej, errStyle) {
 					found = true
 				}
 			}
@@ -449,16 +440,16 @@ func runValidatorTable(c *Ctx) {
 			}
 			cond, _ := stripNot(ifi.Cond)
 			if bo, ok := cond.(*ssa.BinOp); ok && bo.Op == token.GTR && isLenOf(bo.X, s) {
-				if k, ok := constInt(bo.Y); ok && k == 255 && rejectEdgeOK(p, b.Succs[0], false) {
+				if k, ok := constInt(bo.Y); ok && k == 255 && rejectEdgeFrom(p, b, b.Succs[0],false) {
 					long = true
 				}
 			}
 			if bo, ok := cond.(*ssa.BinOp); ok && bo.Op == token.GEQ && isLenOf(bo.X, s) {
-				if k, ok := constInt(bo.Y); ok && k == 256 && rejectEdgeOK(p, b.Succs[0], false) {
+				if k, ok := constInt(bo.Y); ok && k == 256 && rejectEdgeFrom(p, b, b.Succs[0],false) {
 					long = true
 				}
 			}
-			if stringsCallWith(cond, s, []string{"strings.Contains", "strings.ContainsAny", "strings.ContainsRune"}, func(n string) bool { return strings.Contains(n, "\x00") }) && rejectEdgeOK(p, b.Succs[0], false) {
+			if stringsCallWith(cond, s, []string{"strings.Contains", "strings.ContainsAny", "strings.ContainsRune"}, func(n string) bool { return strings.Contains(n, "\x00") }) && rejectEdgeFrom(p, b, b.Succs[0],false) {
 				nul = true
 			}
 		}
@@ -488,7 +479,7 @@ func runValidatorTable(c *Ctx) {
 				if s, ok := constStr(argN(call, 1)); ok && s == "\x00" {
 					isNul = true
 				}
-				if isNul && rejectEdgeOK(p, b.Succs[0], true) {
+				if isNul && rejectEdgeFrom(p, b, b.Succs[0],true) {
 					nul = true
 				}
 			}
@@ -515,7 +506,7 @@ func dotDotRejected(p *Prog, fn *ssa.Function, raw ssa.Value, at *ssa.BasicBlock
 			rej = b.Succs[1]
 		}
 		if stringsCallWith(cond, raw, []string{"strings.Contains"}, func(n string) bool { return n == ".." }) {
-			if rejectEdgeOK(p, rej, errStyle) && (b == at || b.Dominates(at)) {
+			if rejectEdgeFrom(p, b, rej, errStyle) && (b == at || b.Dominates(at)) {
 				return true
 			}
 		}
@@ -531,7 +522,7 @@ func dotDotRejected(p *Prog, fn *ssa.Function, raw ssa.Value, at *ssa.BasicBlock
 			if o.Kind == "call" && o.Call != nil && isCallTo(o.Call, "strings.Split") {
 				sc := o.Call.(*ssa.Call)
 				sep, _ := constStr(sc.Call.Args[1])
-				if sameValue(sc.Call.Args[0], raw) && sep == "/" && rejectEdgeOK(p, rej, errStyle) {
+				if sameValue(sc.Call.Args[0], raw) && sep == "/" && rejectEdgeFrom(p, b, rej, errStyle) {
 					sb := sc.Block()
 					if sb == at || sb.Dominates(at) {
 						return true
